@@ -11,7 +11,7 @@ META = dict(
     technique='symbolic execution (sx proxies) of the real ResponseFuture retry path over solver-enumerated error/decision sequences + z3 validity per path',
     bounds=dict(quick='3 hosts, <= 2 policy consultations, error kinds {read timeout, write timeout, unavailable, overloaded, connection error(defunct)}, decisions x levels {None, ONE}, histories of <= 5 events',
                 thorough='3 hosts, <= 3 policy consultations, + bootstrapping / server error, histories of <= 7 events'),
-    assumptions=['each stream is answered at most once'],
+    assumptions=['race jobs: a timer (client-side timeout, speculative execution) may fire on a thread other than the event loop\'s, so it can overlap the handling of a response - Connection.create_timer does not promise otherwise and the driver itself guards _on_timeout with the connection lock; with the bundled reactors timers run on the event-loop thread, for which these schedules are an over-approximation; two responses are never handled at the same time', 'each stream is answered at most once'],
     stubs=['transport/timers/executor: harness kit', 'codec: identity', 'retry policy: decision oracle'],
     outside=['speculative executions racing with retries (C14 covers outcome uniqueness)'],
 )
